@@ -34,6 +34,7 @@ type Env struct {
 
 // Call the function with the arguments provided.
 func (f *Env) Call(s *slip.Scope, args slip.List, depth int) slip.Object {
+	slip.CheckArgCount(s, depth, f, args, 0, 0)
 	var alist slip.List
 	for _, ev := range os.Environ() {
 		parts := strings.Split(ev, "=")
